@@ -2,6 +2,7 @@ package main
 
 import (
 	"fmt"
+	"go/ast"
 	"strings"
 
 	"verif/harness/internal/behave"
@@ -20,6 +21,36 @@ type c10Meta struct {
 }
 
 type c10Shared struct{ Legal bool }
+
+// c10Alias: hooks of the same name in two packages that declare the same package name, told apart by import aliases only.
+type c10Alias struct{}
+
+const c10AliasSetup = `//go:build convergen
+
+package x
+
+import (
+	e1 "example.com/m/ext"
+	e2 "example.com/m/ext/other"
+)
+
+type Convergen interface {
+	// :postprocess e1.HookSD
+	ConvA(*e1.S) *e1.D
+	// :postprocess e2.HookSD
+	ConvB(*e1.S) *e1.D
+	// :preprocess e2.HookSD
+	// :postprocess e1.HookSD
+	ConvC(*e1.S) *e1.D
+}
+`
+
+// c10AliasWant: function -> the packages whose HookSD it must call, in order.
+var c10AliasWant = map[string][]string{
+	"ConvA": {scen.ModPath + "/ext"},
+	"ConvB": {scen.ModPath + "/ext/other"},
+	"ConvC": {scen.ModPath + "/ext/other", scen.ModPath + "/ext"},
+}
 
 // c10Mixed: the two hooks of ONE method have independent shapes (static accept / reject only).
 type c10Mixed struct {
@@ -43,6 +74,8 @@ var c10Shapes = []struct {
 	{"arg-pointer-for-value-2", "d *D, s *S, n int, a *AA", "", 0},
 	{"two-results", "d *D, s *S", "(*D, error)", 0},
 	{"value-result", "d *D, s *S", "*D", 0},
+	// a CONCRETE type that implements error: `err = H(...)` would compile, and a nil *HErr would read as a non-nil error
+	{"typed-error-result", "d *D, s *S", "*HErr", 0},
 	{"func-variable", "", "", 2},
 }
 
@@ -59,6 +92,8 @@ func c10ShapeDecl(name string, shape int) string {
 		body = " return d, nil "
 	case "*D":
 		body = " return d "
+	case "*HErr":
+		body = " return nil "
 	}
 	res := sh.results
 	if res != "" {
@@ -87,7 +122,7 @@ func familyC10Mixed() []*scen.Cell {
 			}
 			for style := 0; style < 2; style++ {
 				for merr := 0; merr < 2; merr++ {
-					decls := "type AA struct{ A int }\n\ntype S struct {\n\tA int\n}\n\ntype D struct {\n\tA int\n}\n\n"
+					decls := "type AA struct{ A int }\n\ntype S struct {\n\tA int\n}\n\ntype D struct {\n\tA int\n}\n\ntype HErr struct{}\n\nfunc (*HErr) Error() string { return \"herr\" }\n\n"
 					var notes []string
 					if style == 1 {
 						notes = append(notes, ":style arg")
@@ -235,8 +270,10 @@ func init() {
 			}
 		}
 		cells = append(cells, familyC10Mixed()...)
-		e.Rep.Rule("mixed shapes: :preprocess and :postprocess of ONE method drawn independently from {none, plain, with the additional arguments, error, wrong argument count, wrong argument type, wrong destination type, wrong source type, pointer parameter for a value argument (2 positions), results (T, error), result T, a func-typed variable} x style x error result: " +
+		cells = append(cells, &scen.Cell{ID: "c10alias", Family: "C10-aliased-hook-packages", Files: map[string]string{"setup.go": c10AliasSetup}, Meta: c10Alias{}})
+		e.Rep.Rule("mixed shapes: :preprocess and :postprocess of ONE method drawn independently from {none, plain, with the additional arguments, error, wrong argument count, wrong argument type, wrong destination type, wrong source type, pointer parameter for a value argument (2 positions), results (T, error), result T, result of a concrete type implementing error, a func-typed variable} x style x error result: " +
 			"rejected iff one of the two cannot fit (a func-typed variable may go either way), and an accepted output type-checks; " +
+			"hooks of one name in two packages of one package name under import aliases: each call resolves (go/types) to the package its notation names; " +
 			"hook signature {destination by pointer/value} x {source by pointer/value} x {with/without error} x additional parameters {none, all, wrong count, wrong type} x {pre, post, both} x method shape style{return, arg} x source/destination pointer-ness x receiver x error result x additional arguments {0, 2}, " +
 			"plus imported hooks (exported, unexported, missing, unknown package); static: shapes that cannot fit the method (error-returning hook in a method without error result, additional-parameter count or type mismatch, unexported/missing imported hook) must be rejected, all others accepted; " +
 			"dynamic (reflect driver, instrumented hooks recording deep snapshots and pointer identities; a by-pointer preprocess hook scribbles a sentinel into every destination leaf): pre exactly once and first, seeing the destination as passed in / freshly zero and the function's own source; " +
@@ -266,6 +303,43 @@ func init() {
 					return []report.Finding{{Key: fmt.Sprintf("C10|imported-illegal-accepted|loc=%d", fm.Loc), What: "hook that cannot be used was accepted"}}
 				}
 				return nil
+			}
+			if _, ok := o.Cell.Meta.(c10Alias); ok {
+				t.Family("C10-aliased-hook-packages", o.Res.Exit == 0, true)
+				if o.Res.Exit != 0 || !o.OutExists {
+					return []report.Finding{{Key: "C10|legal-rejected|aliased-hook-packages", What: clip(e.scrub(o.Res.Stderr, o.Dir), 300)}}
+				}
+				c := e.WS.Uni.Check(e.WS.PkgPath(o.Cell), scen.OrdinaryFiles(o), nil)
+				if c.FirstError() != "" {
+					return []report.Finding{{Key: "C10|accepted-does-not-compile|aliased-hook-packages", What: c.FirstError()}}
+				}
+				got := map[string][]string{}
+				if f := c.Files["setup.gen.go"]; f != nil {
+					for _, d := range f.Decls {
+						fd, isFn := d.(*ast.FuncDecl)
+						if !isFn || fd.Body == nil {
+							continue
+						}
+						ast.Inspect(fd.Body, func(n ast.Node) bool {
+							if call, isCall := n.(*ast.CallExpr); isCall {
+								if sel, isSel := call.Fun.(*ast.SelectorExpr); isSel && sel.Sel.Name == "HookSD" {
+									if obj := c.Info.Uses[sel.Sel]; obj != nil && obj.Pkg() != nil {
+										got[fd.Name.Name] = append(got[fd.Name.Name], obj.Pkg().Path())
+									}
+								}
+							}
+							return true
+						})
+					}
+				}
+				var fs []report.Finding
+				for fn, want := range c10AliasWant {
+					if strings.Join(got[fn], ",") != strings.Join(want, ",") {
+						fs = append(fs, report.Finding{Key: "C10|wrong-hook-package|aliased-hook-packages", What: fmt.Sprintf("%s must call HookSD of %v, the generated code calls %v", fn, want, got[fn])})
+					}
+				}
+				t.Outcome("aliased-hook-packages")
+				return fs
 			}
 			if sh, ok := o.Cell.Meta.(c10Shared); ok {
 				// per-method validation: the error shape must fit EVERY method that uses the hook
